@@ -10,7 +10,10 @@ Require Import V.Lib V.GoPath.
 Open Scope N_scope.
 
 (* ---------- lexer ---------- *)
-Record token := { t_file : N; t_line : Z; t_text : list N }.
+(* [t_imp]: Token.importID, the number of the import statement that spliced the token in (0: a token
+   of the input); [t_envnl]: Token.envLineBreaks, the line breaks that environment values have put
+   into the text *)
+Record token := { t_file : N; t_line : Z; t_text : list N; t_imp : N; t_envnl : Z }.
 
 Definition is_space (c : N) : bool :=
   (c =? 9) || (c =? 10) || (c =? 11) || (c =? 12) || (c =? 13) || (c =? 32) ||
@@ -28,7 +31,7 @@ Definition BOM : N := 65279.
    been started (needed for the empty quoted token), [tline] its line *)
 Fixpoint lex_go (inp : list N) (line : Z) (val : list N) (tline : Z)
          (comment quoted escaped : bool) : list token :=
-  let mk := {| t_file := 0; t_line := tline; t_text := rev val |} in
+  let mk := {| t_file := 0; t_line := tline; t_text := rev val; t_imp := 0; t_envnl := 0%Z |} in
   match inp with
   | [] => match val with [] => [] | _ => [mk] end
   | ch :: r =>
@@ -111,8 +114,14 @@ Definition replace_env (env : list (bytes * bytes)) (s : bytes) : option bytes :
 (* ---------- parser ---------- *)
 Fixpoint count_nl (s : list N) : Z :=
   match s with [] => 0%Z | c :: r => ((if (c =? NL)%N then 1 else 0) + count_nl r)%Z end.
+(* Token.NumLineBreaks: the line breaks of the input in the text *)
+Definition tok_breaks (t : token) : Z := (count_nl (t_text t) - t_envnl t)%Z.
+(* isNextOnNewLine *)
 Definition next_on_new_line (t1 t2 : token) : bool :=
-  negb (t_file t1 =? t_file t2) || (t_line t1 + count_nl (t_text t1) <? t_line t2)%Z.
+  negb (t_file t1 =? t_file t2) || negb (t_imp t1 =? t_imp t2) || (t_line t1 + tok_breaks t1 <? t_line t2)%Z.
+(* the test of Dispenser.NextArg *)
+Definition same_line (a b : token) : bool :=
+  (t_file a =? t_file b) && (t_imp a =? t_imp b) && (t_line a + tok_breaks a =? t_line b)%Z.
 
 Record pst := { p_tokens : list token; p_cursor : Z; p_keys : list bytes;
                 p_btoks : list (bytes * list token); p_eof : bool;
@@ -142,7 +151,7 @@ Definition next_arg (st : pst) : bool * pst :=
   else if (c >=? plen st)%Z then (false, st)
   else match tok_at st c, tok_at st (c + 1) with
        | Some a, Some b =>
-           if (t_file a =? t_file b) && (t_line a + count_nl (t_text a) =? t_line b)%Z
+           if same_line a b
            then (true, set_cursor st (c + 1)) else (false, st)
        | _, _ => (false, st)
        end.
@@ -170,8 +179,13 @@ Fixpoint add_btok (m : list (bytes * list token)) (dir : bytes) (t : token) : li
   | (d, ts) :: r => if beq d dir then (d, ts ++ [t]) :: r else (d, ts) :: add_btok r dir t
   end.
 
+(* tkn.envLineBreaks += Count(txt, "\n") - Count(tkn.Text, "\n"); tkn.Text = txt *)
 Definition retext (t : token) (txt : bytes) : token :=
-  {| t_file := t_file t; t_line := t_line t; t_text := txt |}.
+  {| t_file := t_file t; t_line := t_line t; t_text := txt; t_imp := t_imp t;
+     t_envnl := (t_envnl t + count_nl txt - count_nl (t_text t))%Z |}.
+(* tkn.importID = n *)
+Definition set_imp (n : N) (t : token) : token :=
+  {| t_file := t_file t; t_line := t_line t; t_text := t_text t; t_imp := n; t_envnl := t_envnl t |}.
 
 (* p.tokens[p.cursor].Text = txt  (checked index) *)
 Definition set_tok_text (st : pst) (c : Z) (txt : bytes) : pst :=
@@ -280,7 +294,7 @@ Definition do_import (st : pst) : pres pst :=
           | Ok before, Ok after =>
             match imported_tokens st1 pat with
             | POk imp =>
-                POk {| p_tokens := before ++ imp ++ after; p_cursor := (c - 1)%Z; p_keys := p_keys st1;
+                POk {| p_tokens := before ++ map (set_imp n) imp ++ after; p_cursor := (c - 1)%Z; p_keys := p_keys st1;
                        p_btoks := p_btoks st1; p_eof := p_eof st1; p_snips := p_snips st1; p_imports := n |}
             | PErr e => PErr e | PFuel => PFuel | PPanic => PPanic | PUnknown => PUnknown
             end
@@ -446,7 +460,7 @@ Definition parse_tokens (fuel : nat) (toks : list token) : pres (list block) :=
 End Parser.
 
 Definition retag (f : N) (ts : list token) : list token :=
-  map (fun t => {| t_file := f; t_line := t_line t; t_text := t_text t |}) ts.
+  map (fun t => {| t_file := f; t_line := t_line t; t_text := t_text t; t_imp := t_imp t; t_envnl := t_envnl t |}) ts.
 Definition lex_files (files : list (N * option (list N))) : list (N * option (list token)) :=
   (* an empty file cannot be imported (lexer.load returns EOF: "Could not read tokens") *)
   map (fun e => (fst e, match snd e with Some [] => None | Some txt => Some (retag (fst e) (lex txt)) | None => None end)) files.
@@ -486,19 +500,31 @@ Definition d_next_arg (ts : list token) (c : Z) : bool * Z :=
   else if (c >=? Z.of_nat (length ts))%Z then (false, c)
   else match d_tok ts c, d_tok ts (c + 1) with
        | Some a, Some b =>
-           if (t_file a =? t_file b) && (t_line a + count_nl (t_text a) =? t_line b)%Z
+           if same_line a b
            then (true, (c + 1)%Z) else (false, c)
        | _, _ => (false, c)
        end.
 
 (* ---------- observable projection and cases ---------- *)
 (* directive groups are sorted by the harness on both sides (Go map) *)
-Definition otok := (N * Z * bytes)%type.                      (* file, line, text *)
+(* file, line, text, and what the Dispenser says about the token relative to the previous token of
+   its group: (NextLine would load it, NextArg would load it); (false, false) for the first *)
+Definition otok := (N * Z * bytes * (bool * bool))%type.
+Definition o_file (o : otok) : N := fst (fst (fst o)).
+Definition o_line (o : otok) : Z := snd (fst (fst o)).
+Definition o_text (o : otok) : bytes := snd (fst o).
+Definition o_nl (o : otok) : bool := fst (snd o).
+Definition o_same (o : otok) : bool := snd (snd o).
 Definition oblock := (list bytes * list (bytes * list otok))%type.
-Definition otok_of (t : token) : otok := (t_file t, t_line t, t_text t).
-Definition tok_of (o : otok) : token := {| t_file := fst (fst o); t_line := snd (fst o); t_text := snd o |}.
+Fixpoint otoks_of (prev : option token) (ts : list token) : list otok :=
+  match ts with
+  | [] => []
+  | t :: r => (t_file t, t_line t, t_text t,
+               match prev with None => (false, false) | Some p => (next_on_new_line p t, same_line p t) end)
+              :: otoks_of (Some t) r
+  end.
 Definition project (b : block) : oblock :=
-  (fst b, map (fun g => (fst g, map otok_of (snd g))) (snd b)).
+  (fst b, map (fun g => (fst g, otoks_of None (snd g))) (snd b)).
 
 Fixpoint bytes_leb (a b : bytes) : bool :=
   match a, b with
@@ -515,7 +541,8 @@ Definition sort_groups {T} (l : list (bytes * T)) := fold_right insert_group [] 
 Definition canon (b : block) : oblock := (fst (project b), sort_groups (snd (project b))).
 
 Definition otok_eqb (a b : otok) : bool :=
-  (fst (fst a) =? fst (fst b)) && (snd (fst a) =? snd (fst b))%Z && beq (snd a) (snd b).
+  (o_file a =? o_file b) && (o_line a =? o_line b)%Z && beq (o_text a) (o_text b) &&
+  Bool.eqb (o_nl a) (o_nl b) && Bool.eqb (o_same a) (o_same b).
 Definition oblock_eqb (a b : oblock) : bool :=
   list_beq beq (fst a) (fst b) &&
   list_beq (fun g h => beq (fst g) (fst h) && list_beq otok_eqb (snd g) (snd h)) (snd a) (snd b).
@@ -524,27 +551,22 @@ Definition oblock_eqb (a b : oblock) : bool :=
    texts with a flag "starts on a new line relative to the previous token of the group" *)
 Definition eblock := (list bytes * list (bytes * list (bytes * bool)))%type.
 
-(* line structure of an observed group against the expected flags: [next_on_new_line] (the test
-   of NextLine / nextOnSameLine / NextBlock) and the same-line test of NextArg must both say
-   what was written *)
-Fixpoint struct_ok (prev : option token) (obs : list otok) (ex : list (bytes * bool)) : bool :=
+(* line structure of an observed group against the expected flags: what the implementation's
+   Dispenser itself answered between consecutive tokens — NextLine (the isNextOnNewLine test, also
+   used by nextOnSameLine / NextBlock) and NextArg — must both say what was written *)
+Fixpoint struct_ok (first : bool) (obs : list otok) (ex : list (bytes * bool)) : bool :=
   match obs, ex with
   | [], [] => true
   | o :: obs', (txt, nl) :: ex' =>
-      let t := tok_of o in
-      beq (t_text t) txt &&
-      match prev with
-      | None => true
-      | Some p =>
-          Bool.eqb (next_on_new_line p t) nl &&
-          Bool.eqb ((t_file p =? t_file t) && (t_line p + count_nl (t_text p) =? t_line t)%Z) (negb nl)
-      end && struct_ok (Some t) obs' ex'
+      beq (o_text o) txt &&
+      (first || (Bool.eqb (o_nl o) nl && Bool.eqb (o_same o) (negb nl))) &&
+      struct_ok false obs' ex'
   | _, _ => false
   end.
 Fixpoint texts_ok (obs : list otok) (ex : list (bytes * bool)) : bool :=
   match obs, ex with
   | [], [] => true
-  | o :: obs', (txt, _) :: ex' => beq (snd o) txt && texts_ok obs' ex'
+  | o :: obs', (txt, _) :: ex' => beq (o_text o) txt && texts_ok obs' ex'
   | _, _ => false
   end.
 Fixpoint all2 {A B} (f : A -> B -> bool) (a : list A) (b : list B) : bool :=
@@ -556,7 +578,7 @@ Fixpoint all2 {A B} (f : A -> B -> bool) (a : list A) (b : list B) : bool :=
 Definition eblock_ok (with_struct : bool) (o : oblock) (e : eblock) : bool :=
   list_beq beq (fst o) (fst e) &&
   all2 (fun g h => beq (fst g) (fst h) &&
-                       (if with_struct then struct_ok None (snd g) (snd h) else texts_ok (snd g) (snd h)))
+                       (if with_struct then struct_ok true (snd g) (snd h) else texts_ok (snd g) (snd h)))
            (snd o) (snd e).
 
 Inductive obs :=
